@@ -6,6 +6,12 @@ pub fn rkyv_to_bytes_markers(m: &HashMap<String, CleanMarkerRecord>) -> (r: Resu
 pub fn tmp_name_str(path: &str) -> (r: String) ensures r@ == path@ + seq!['.', 't', 'm', 'p'] { unimplemented!() }
 #[verifier::external_body]
 pub fn fs_rename_str(fs: &mut Fs, from: &String, to: &str) -> (r: IoResult<()>)
+    requires
+        // "each unsynced write may or may not be kept": a rename can reach the disk before the data of the file it moves, so the
+        // contents of the source must already be durable (fsync before rename) - otherwise a power loss may leave the target name
+        // on a file without its contents
+        old(fs).vol_dir@.contains_key(from@) ==> (old(fs).dur_data@.contains_key(old(fs).vol_dir@[from@]) && old(fs).vol_data@.contains_key(old(fs).vol_dir@[from@])
+            && old(fs).dur_data@[old(fs).vol_dir@[from@]] == old(fs).vol_data@[old(fs).vol_dir@[from@]]),
     ensures
         final(fs).dur_dir == old(fs).dur_dir, final(fs).vol_data == old(fs).vol_data, final(fs).dur_data == old(fs).dur_data,
         r is Ok ==> old(fs).vol_dir@.contains_key(from@) && final(fs).vol_dir@ == old(fs).vol_dir@.remove(from@).insert(to@, old(fs).vol_dir@[from@]),
